@@ -467,8 +467,8 @@ func TestVerifC16Wiring(t *testing.T) {
 		}
 	}
 	// ListNamespaces: every subset of a 3-namespace response
-	names := []string{"allowed-ns", "forbidden-ns", "plain-allowed"}
-	for mask := 0; mask < 8; mask++ {
+	names := []string{"forbidden-ns", "allowed-ns", "unknown-ns", "other-forbidden", "plain-allowed", "last-forbidden"}
+	for mask := 0; mask < 1<<len(names); mask++ {
 		var in []string
 		for i, n := range names {
 			if mask&(1<<i) != 0 {
@@ -505,7 +505,7 @@ func TestVerifC16Wiring(t *testing.T) {
 	cl.Close()
 	res.Set("evaluations", evals)
 	res.Set("distinct_nontrivial", nontrivial)
-	res.Set("rule", "real ClusterConnection with namespace allow-list (local names) and a namespace mapping: every unary method that has a namespace path, fully populated request with every namespace field = one of {remote name mapping to an allowed local name, remote name mapping to a forbidden one, allowed, forbidden, unknown, empty} x bypass header on/off; ListNamespaces with every subset of three namespaces; non-trivial = must be refused / filtered")
+	res.Set("rule", "real ClusterConnection with namespace allow-list (local names) and a namespace mapping: every unary method that has a namespace path, fully populated request with every namespace field = one of {remote name mapping to an allowed local name, remote name mapping to a forbidden one, allowed, forbidden, unknown, empty} x bypass header on/off; ListNamespaces with every subset (order kept) of six namespaces of which four are forbidden, so that runs of adjacent forbidden entries occur; non-trivial = must be refused / filtered")
 	res.Set("exhaustive", true)
 	res.Sample(map[string]any{"method": "/temporal.api.workflowservice.v1.WorkflowService/StartWorkflowExecution", "name": "remote-bad"})
 	_ = adminservice.AdminService_ServiceDesc
